@@ -79,6 +79,15 @@ def run_shard(spec, ctx):
     probe.count_only([('a5.core.cell', 'cell_to_lonlat'), ('a5.core.cell', 'lonlat_to_cell'), ('a5.core.cell', 'cell_to_boundary')])
     rnd = ctx.rnd
     if spec['part'] == 'points':
+        if spec['shard'] % 3 == 0:
+            from rv import branch
+            bpts = branch.hostile_points(a5, rnd, 120, 100, 60)
+            ctx.counters['branch_boundary_points'] = len(bpts)
+            for i_ in range(min(3 * len(bpts), 400)):
+                r_ = rnd.choice((29, 28, 27, 26, 25, rnd.randint(2, 24)))
+                cb = eval_point(a5, geo, branch.near(rnd, bpts[i_ % len(bpts)][0], geo.width(r_)), r_, 'branch', ctx)
+                if cb is not None:
+                    eval_cell(a5, geo, cb, r_, 'branch', ctx)
         for n in range(spec['n']):
             cls = CLASSES[n % len(CLASSES)]
             p, r = gen.point(rnd, a5, cls)
